@@ -14,7 +14,7 @@ THEOREMS = ["Mpir.AliasMem.ofInts_ok",
             "Mpir.AliasMem.tdiv_qr_ptr_spec", "Mpir.AliasMem.tdiv_qr_alias", "Mpir.AliasMem.tdiv_q_ptr_spec", "Mpir.AliasMem.tdiv_r_ptr_spec",
             "Mpir.AliasMem.cfdiv_qr_ptr_spec", "Mpir.AliasMem.cfdiv_qr_alias", "Mpir.AliasMem.cfdiv_q_ptr_spec", "Mpir.AliasMem.cfdiv_r_ptr_spec",
             "Mpir.AliasMem.mod_ptr_spec", "Mpir.AliasMem.divexact_ptr_spec", "Mpir.AliasMem.div3_alias",
-            "Mpir.AliasMem.mul_2exp_ptr_spec", "Mpir.AliasMem.tdiv_q_2exp_ptr_spec",
+            "Mpir.AliasMem.mul_2exp_ptr_spec", "Mpir.AliasMem.tdiv_q_2exp_ptr_spec", "Mpir.AliasMem.cfdiv_q_2exp_ptr_spec",
             "Mpir.AliasMem.mpz_and_ptr_spec", "Mpir.AliasMem.mpz_xor_ptr_spec", "Mpir.AliasMem.logic_ptr_spec", "Mpir.AliasMem.mpz_com_ptr_spec",
             "Mpir.AliasMem.sqrtrem_ptr_spec", "Mpir.AliasMem.mpz_neg_ptr_spec", "Mpir.AliasMem.mpz_abs_ptr_spec", "Mpir.AliasMem.mpz_set_ptr_spec",
             "Mpir.Mpf.mpf_neg_alias", "Mpir.Mpf.mpf_abs_alias", "Mpir.Mpf.mpf_add_alias", "Mpir.Mpf.mpf_sub_alias",
@@ -22,7 +22,7 @@ THEOREMS = ["Mpir.AliasMem.ofInts_ok",
 PINS = [("mpz/tdiv_qr.c", None), ("mpz/tdiv_q.c", None), ("mpz/tdiv_r.c", None),
         ("mpz/fdiv_qr.c", None), ("mpz/cdiv_qr.c", None), ("mpz/fdiv_q.c", None), ("mpz/cdiv_q.c", None),
         ("mpz/fdiv_r.c", None), ("mpz/cdiv_r.c", None), ("mpz/mod.c", None), ("mpz/divexact.c", None),
-        ("mpz/mul_2exp.c", None), ("mpz/tdiv_q_2exp.c", None),
+        ("mpz/mul_2exp.c", None), ("mpz/tdiv_q_2exp.c", None), ("mpz/cfdiv_q_2exp.c", None),
         ("mpz/sqrtrem.c", None), ("mpz/neg.c", None), ("mpz/abs.c", None), ("mpz/and.c", None), ("mpz/ior.c", None), ("mpz/xor.c", None), ("mpz/com.c", None),
         ("mpf/neg.c", None), ("mpf/abs.c", None), ("mpf/add.c", None), ("mpf/sub.c", None), ("mpf/add_ui.c", None),
         ("mpf/sub_ui.c", None), ("mpf/ui_sub.c", None),
@@ -109,13 +109,15 @@ def gen_ops(rng, tier, ctx=None):
                         v[n] = v[d] * k
                     yield "alias_divexact %x %x %x 0 %s" % (w, n, d, " ".join(hx(x) for x in v))
     # in-place shifts: every (w, u), bit counts around limb boundaries, carry limb / no carry limb, top limb zero after the right shift
-    for fn in ("mul_2exp", "tdiv_q_2exp"):
+    for fn in ("mul_2exp", "tdiv_q_2exp", "cdiv_q_2exp", "fdiv_q_2exp"):
         for w in range(4):
             for u in range(4):
                 for _ in range(reps * 6):
                     v = _values(rng, big)
                     if rng.random() < 0.5: v[u] = rng.choice([1, -1]) * _mag(rng, rng.choice([1, 2, 3, big]))
                     if rng.random() < 0.15: v[u] = rng.choice([1, -1]) * ((1 << (64 * rng.choice([1, 2, 3]))) - 1)
+                    if rng.random() < 0.15:      # only a LOW limb is non-zero below the cut (rounding decided by a skipped limb)
+                        v[u] = rng.choice([1, -1]) * ((_mag(rng, rng.choice([1, 2])) << (64 * rng.choice([2, 3]))) + rng.choice([1, 5, 1 << 63]))
                     cnt = rng.choice([0, 1, 63, 64, 65, 127, 128, 129, 191, 192, rng.randrange(0, 64 * (big + 3))])
                     yield "alias_%s %x %x %x %s" % (fn, w, u, cnt, " ".join(hx(x) for x in v))
     # bit operations: every (res, op1, op2), all four sign cases, sizes equal / longer / shorter, low zero limbs (borrow through
